@@ -802,3 +802,51 @@ def rule_optional_children_tested(ctx, rep, rid: str, modules=("compiler", "pars
                 rep.bad(rid, key, f"{f.qual} reads `{norm(x)}` where `{base}` is a {'/'.join(hit)}, whose `{child.attr}` is declared {schema[hit[0]][child.attr]}: no test of `{want}` dominates the read, so a node without that child (which the parser may build) raises AttributeError - a host exception that passes through eval instead of a JSError", f"{f.module.rel}:{x.lineno}")
     if n < 3:
         raise AnalysisError(f"{rid}: fewer than three reads into optional children found ({n})")
+
+
+# ---- `var x;` assigns nothing ---------------------------------------------------------------------------------
+
+
+def rule_var_without_initialiser_stores_nothing(ctx, rep, rid: str) -> None:
+    """`var x;` declares: it gives x no value, so a value x already has stays (`x = 5; var x;`, a `var t;` at the top of
+    a loop body, a global the embedder set).  In the compiler's loop over the declarators, the path on which the
+    declarator has no initialiser must therefore not reach an emitted store to the variable."""
+    rep.rule(rid, "in the statement compiler's loop over the declarators of a var statement, no path on which the declarator has no initialiser reaches an unconditional `_emit(STORE_LOCAL / STORE_CELL / STORE_NAME)` (a declaration without initialiser leaves the variable as it is)", floor=1)
+    comp = ctx.tree.class_named("Compiler")
+    n = 0
+    for m in comp.methods.values():
+        if isinstance(m.node, ast.Lambda):
+            continue
+        for loop in m.own_nodes():
+            if not (isinstance(loop, ast.For) and isinstance(loop.target, ast.Name) and isinstance(loop.iter, ast.Attribute) and loop.iter.attr == "declarations"):
+                continue
+            d = loop.target.id
+            tests = [x for x in ast.walk(loop) if isinstance(x, ast.If) and norm(x.test) in (f"{d}.init", f"{d}.init is not None", f"{d}.init is None", f"not {d}.init")]
+            emits_store = [c for c in ast.walk(loop) if isinstance(c, ast.Call) and norm(c.func) == "self._emit" and c.args and "STORE_" in norm(c.args[0])]
+            if not emits_store:
+                continue  # a collector, not the code generator
+            n += 1
+            key = f"{m.qual}:for {d} in {norm(loop.iter)}:no-initialiser"
+            if not tests:
+                rep.bad(rid, key, f"{m.qual} emits a store for every declarator of a var statement without asking whether it has an initialiser: `var x;` overwrites x with undefined", f"{m.module.rel}:{loop.lineno}")
+                continue
+            cfg = ctx.facts.cfg(m)
+            bad = None
+            for t in tests:
+                positive = norm(t.test) in (f"{d}.init", f"{d}.init is not None")
+                with_init = t.body if positive else t.orelse
+                blocked = {nd.id for nd in cfg.nodes if nd.ast is not None and any(nd.ast is y or nd.stmt is y for b in with_init for y in ast.walk(b) if isinstance(y, ast.stmt))}
+                tn = cfg.node_of_stmt.get(id(t))
+                if tn is None:
+                    continue
+                within = cfg.loop_nodes.get(id(loop))
+                stores = {nd.id for nd in cfg.nodes if nd.ast is not None and nd.id not in blocked and any(c is x for c in emits_store for x in ast.walk(nd.ast if not isinstance(nd.ast, (ast.If, ast.While)) else nd.ast.test))}
+                p = cfg.path_avoiding(tn.id, lambda nd: nd.id in stores, blocked | {cfg.loop_head[id(loop)].id}, within, start_succ=True)
+                if p is not None:
+                    bad = p
+            if bad is None:
+                rep.ok(rid, key)
+            else:
+                rep.bad(rid, key, f"{m.qual}: a declarator without initialiser still reaches an emitted store (lines {[x.line for x in bad if x.line][:6]}): `x = 5; var x; x` gives undefined, a `var t;` inside a loop resets t on every trip, and a global set by the embedder is lost when a script merely declares it", f"{m.module.rel}:{bad[-1].line}")
+    if n == 0:
+        raise AnalysisError(f"{rid}: the code generator's loop over var declarators was not found")
